@@ -295,6 +295,11 @@ def flatten_extends(
             if not hasattr(sym, "_declared_in"):
                 sym._declared_in = c.full_reference()
 
+        # A class extending a class that itself derives from a built-in type
+        # (e.g. "type Y = X" with "type X = Real") derives from the built-in too.
+        if c.type == "__builtin":
+            extended_orig_class.type = c.type
+
         # Imports are not inherited (spec 3.5 sections 5.3.1 and 7.1)
         # extended_orig_class.imports.update(c.imports)
         extended_orig_class.classes.update(c.classes)
